@@ -1,9 +1,10 @@
 /-
   Proofs/C16.lean — property C16: ListOfDicts joins follow first-match rules.
-  Statements only; proofs cite Lemmas/LoD.lean.
+  Statements only; proofs cite Lemmas/LoD.lean and Lemmas/LoDJoinAgg.lean (full_join, aggregate).
 -/
 import Model.LoD
 import Lemmas.LoD
+import Lemmas.LoDJoinAgg
 
 namespace DI.C16
 
@@ -41,5 +42,180 @@ theorem semi_anti_partition (xs other : List Item) (by1 by2 : List String) :
     (semiJoin xs other by1 by2 ++ antiJoin xs other by1 by2).Perm xs ∧
     (semiJoin xs other by1 by2).Sublist xs ∧ (antiJoin xs other by1 by2).Sublist xs :=
   LoD.semi_anti_partition xs other by1 by2
+
+/-! ## full_join
+
+`fullJoin xs other by1 by2` is the list of result rows; a row `p` carries the position `p.l` of the
+left item and `p.r` of the right item it was made from (`none`: no such item) and its content `p.kv`.
+`pairLe` (Lemmas/LoDJoinAgg.lean) is the order of `sort(_aid_=1, _bid_=1)`: by left id, then by
+right id, a missing id after every real one. -/
+
+/-- the model's row comparison is `pairLe`, and `pairLe` is a total preorder whose ties carry equal
+    ids: "ordered by (l, r) with none last" is a meaningful statement. -/
+theorem full_join_order (xs other : List Item) (by1 by2 : List String) :
+    (fullJoin xs other by1 by2 =
+      if (fjRest xs other by1 by2).isEmpty then fjAB xs other by1 by2
+      else (fjAB xs other by1 by2 ++ fjBA xs other by1 by2).mergeSort pairLe) ∧
+    PreOrd pairLe ∧ (∀ p q, pairLe p q → pairLe q p → p.l = q.l ∧ p.r = q.r) ∧
+    (∀ a b : Nat, optLe (some a) (some b) = decide (a ≤ b)) ∧
+    (∀ a, optLe a none = true) ∧ (∀ a : Nat, optLe none (some a) = false) :=
+  ⟨fullJoin_eq xs other by1 by2, pairLe_spec⟩
+
+/-- full_join keeps every left item … -/
+theorem full_join_keeps_left (xs other : List Item) (by1 by2 : List String) (i : Nat) (hi : i < xs.length) :
+    ∃ p ∈ fullJoin xs other by1 by2, p.l = some i := fullJoin_keeps_left xs other by1 by2 i hi
+
+/-- … but NOT always exactly once: a left item is repeated for every further right item with its key
+    values (Python does the same: `ba` joins such a right item back to the first matching left item). -/
+theorem full_join_left_once_counterexample :
+    ((fullJoin [⟨0, [("k", .i 1), ("a", .i 10)]⟩]
+        [⟨10, [("k", .i 1), ("b", .i 5)]⟩, ⟨11, [("k", .i 1), ("b", .i 6)]⟩] ["k"] ["k"]).filter
+      (fun p => p.l == some 0)).length = 2 := fullJoin_left_twice_example
+
+/-- exactly once when the right key tuples are distinct. -/
+theorem full_join_left_once_partial (xs other : List Item) (by1 by2 : List String)
+    (hnd : (other.map (extract by2)).Nodup) (i : Nat) (hi : i < xs.length) :
+    ((fullJoin xs other by1 by2).filter (fun p => p.l == some i)).length = 1 :=
+  fullJoin_left_once xs other by1 by2 hnd i hi
+
+/-- full_join additionally contains every right item at least once … -/
+theorem full_join_keeps_right (xs other : List Item) (by1 by2 : List String) (j : Nat) (hj : j < other.length) :
+    ∃ p ∈ fullJoin xs other by1 by2, p.r = some j := fullJoin_keeps_right xs other by1 by2 j hj
+
+/-- … (several times if several left items have its key values) … -/
+theorem full_join_right_once_counterexample :
+    ((fullJoin [⟨0, [("k", .i 1), ("a", .i 10)]⟩, ⟨1, [("k", .i 1), ("a", .i 11)]⟩]
+        [⟨10, [("k", .i 1), ("b", .i 5)]⟩] ["k"] ["k"]).filter
+      (fun p => p.r == some 0)).length = 2 := by decide
+
+/-- … exactly once when the left key tuples are distinct. -/
+theorem full_join_right_once_partial (xs other : List Item) (by1 by2 : List String)
+    (hnd : (xs.map (extract by1)).Nodup) (j : Nat) (hj : j < other.length) :
+    ((fullJoin xs other by1 by2).filter (fun p => p.r == some j)).length = 1 :=
+  fullJoin_right_once xs other by1 by2 hnd j hj
+
+/-- … and never merges items with unequal keys: the ids of a row are real positions and a row made
+    from two items joins items whose key values are equal. -/
+theorem full_join_equal_keys (xs other : List Item) (by1 by2 : List String) (p : Pair)
+    (hp : p ∈ fullJoin xs other by1 by2) (i j : Nat) (hl : p.l = some i) (hr : p.r = some j) :
+    ∃ (hi : i < xs.length) (hj : j < other.length), extract by1 xs[i] = extract by2 other[j] :=
+  fullJoin_equal_keys xs other by1 by2 p hp i j hl hr
+
+/-- every id is a real position and no row is made from nothing. -/
+theorem full_join_ids_valid (xs other : List Item) (by1 by2 : List String) (p : Pair)
+    (hp : p ∈ fullJoin xs other by1 by2) :
+    (∀ i, p.l = some i → i < xs.length) ∧ (∀ j, p.r = some j → j < other.length) ∧
+    (p.l ≠ none ∨ p.r ≠ none) :=
+  ⟨fun i h => fullJoin_left_id_lt xs other by1 by2 p hp i h,
+   fun j h => fullJoin_right_id_lt xs other by1 by2 p hp j h, fullJoin_has_id xs other by1 by2 p hp⟩
+
+/-- a row made from one item only is that item, unchanged, and no item of the other list has its
+    key values. -/
+theorem full_join_unmatched_unchanged (xs other : List Item) (by1 by2 : List String) (p : Pair)
+    (hp : p ∈ fullJoin xs other by1 by2) :
+    (p.r = none → ∃ i, ∃ hi : i < xs.length, p.l = some i ∧ p.kv = xs[i].kv ∧
+      ∀ x ∈ other, extract by2 x ≠ extract by1 xs[i]) ∧
+    (p.l = none → ∃ j, ∃ hj : j < other.length, p.r = some j ∧ p.kv = other[j].kv ∧
+      ∀ x ∈ xs, extract by1 x ≠ extract by2 other[j]) :=
+  ⟨fullJoin_left_only xs other by1 by2 p hp, fullJoin_right_only xs other by1 by2 p hp⟩
+
+/-- the left part is the left join: the first row of left item `i` has the content of
+    `left_join`'s `i`-th item, and its right id is the FIRST right position with equal key values
+    (`reversed_dict_first`), or none if no right item has them. -/
+theorem full_join_left_part_is_left_join (xs other : List Item) (by1 by2 : List String)
+    (i : Nat) (hi : i < xs.length) :
+    ∃ p, (fullJoin xs other by1 by2).find? (fun p => p.l == some i) = some p ∧
+      p.kv = ((leftJoin xs other by1 by2)[i]'(by rw [leftJoin_length]; exact hi)).kv ∧
+      (∀ j, p.r = some j → ∃ hj : j < other.length, extract by2 other[j] = extract by1 xs[i] ∧
+        ∀ j' (hj' : j' < other.length), extract by2 other[j'] = extract by1 xs[i] → j ≤ j') ∧
+      (p.r = none → ∀ x ∈ other, extract by2 x ≠ extract by1 xs[i]) :=
+  fullJoin_first_row xs other by1 by2 i hi
+
+/-- the result is ordered by (left id, right id) with missing ids last — strictly: no two rows have
+    the same pair of ids. -/
+theorem full_join_sorted (xs other : List Item) (by1 by2 : List String) :
+    (fullJoin xs other by1 by2).Pairwise (fun p q => pairLe p q = true ∧ pairLe q p = false) :=
+  fullJoin_strict_sorted xs other by1 by2
+
+/-- the rows are exactly the left-join rows plus one row per right item not used by them. -/
+theorem full_join_rows (xs other : List Item) (by1 by2 : List String) :
+    (fullJoin xs other by1 by2).Perm (fjAB xs other by1 by2 ++ fjBA xs other by1 by2) ∧
+    (fjAB xs other by1 by2).length = xs.length ∧
+    (fjBA xs other by1 by2).length =
+      (other.zipIdx.filter (fun q => !(fjUsed xs other by1 by2).contains q.2)).length :=
+  ⟨fullJoin_perm xs other by1 by2, fjAB_length xs other by1 by2, by simp [fjBA_eq, fjRest]⟩
+
+/-- non-vacuity: `ab ++ ba` = rows (0,0), (1,–), (0,1) is not in order; the sort moves the
+    second row of left item 0 in front of left item 1. -/
+example :
+    (fullJoin [⟨0, [("k", .i 1)]⟩, ⟨1, [("k", .i 2)]⟩]
+        [⟨10, [("k", .i 1), ("b", .i 5)]⟩, ⟨11, [("k", .i 1), ("b", .i 6)]⟩] ["k"] ["k"]).map
+      (fun p => (p.l, p.r)) = [(some 0, some 0), (some 0, some 1), (some 1, none)] := by
+  rw [fullJoin_eq, if_neg (by decide)]
+  rw [show fjAB [⟨0, [("k", .i 1)]⟩, ⟨1, [("k", .i 2)]⟩]
+        [⟨10, [("k", .i 1), ("b", .i 5)]⟩, ⟨11, [("k", .i 1), ("b", .i 6)]⟩] ["k"] ["k"] ++
+      fjBA [⟨0, [("k", .i 1)]⟩, ⟨1, [("k", .i 2)]⟩]
+        [⟨10, [("k", .i 1), ("b", .i 5)]⟩, ⟨11, [("k", .i 1), ("b", .i 6)]⟩] ["k"] ["k"] =
+      [⟨some 0, some 0, [("k", .i 1), ("b", .i 5)]⟩, ⟨some 1, none, [("k", .i 2)]⟩,
+       ⟨some 0, some 1, [("k", .i 1), ("b", .i 6)]⟩] by decide]
+  simp [List.mergeSort, List.MergeSort.Internal.splitInTwo_fst, List.MergeSort.Internal.splitInTwo_snd,
+    pairLe, optLe]
+
+/-! ## aggregate
+
+`aggregate xs keys` is the list of groups `(key tuple, tags of the group's items)`; the summaries
+of a group are computed by Python from exactly those items. `lexLe` is the lexicographic order on key
+tuples whose components are compared by `valLe` = Python's `(v is None, v)`. -/
+
+/-- the order the groups are put in is linear, lexicographic, with None last in every component. -/
+theorem aggregate_order :
+    LinOrd lexLe ∧ LinOrd valLe ∧
+    (∀ a b as bs, lexLe (a :: as) (b :: bs) = if a = b then lexLe as bs else valLe a b) ∧
+    (∀ v, valLe v .none = true) ∧ (∀ v, v ≠ .none → valLe .none v = false) ∧
+    (∀ a b : Int, valLe (.i a) (.i b) = decide (a ≤ b)) ∧
+    (∀ a b : String, valLe (.s a) (.s b) = decide (a ≤ b)) :=
+  lexLe_spec
+
+/-- aggregate yields one item per distinct combination of group-key values … -/
+theorem aggregate_one_per_key (xs : List Item) (keys : List String) :
+    ((aggregate xs keys).map (·.1)).Nodup ∧
+    ∀ id, id ∈ (aggregate xs keys).map (·.1) ↔ id ∈ xs.map (extract keys) :=
+  ⟨aggregate_keys_nodup xs keys, mem_aggregate_keys xs keys⟩
+
+/-- … ordered by those keys with None last (lexicographically, strictly ascending) … -/
+theorem aggregate_ordered (xs : List Item) (keys : List String) :
+    ((aggregate xs keys).map (·.1)).Pairwise (fun a b => lexLe a b = true ∧ lexLe b a = false) :=
+  aggregate_keys_strict_sorted xs keys
+
+/-- … whose summaries are computed over exactly that group's items in their original order: the
+    members of a group are the items with its key values, in list order, at least one; the groups
+    partition the items. -/
+theorem aggregate_groups_exact (xs : List Item) (keys : List String) :
+    (∀ g ∈ aggregate xs keys,
+      g.2 = (xs.filter (fun it => extract keys it == g.1)).map (·.tag) ∧ g.2 ≠ []) ∧
+    ((aggregate xs keys).flatMap (·.2)).Perm (xs.map (·.tag)) ∧
+    ((aggregate xs keys).map (·.2.length)).sum = xs.length :=
+  ⟨fun g hg => ⟨aggregate_group xs keys g hg, aggregate_group_nonempty xs keys g hg⟩,
+    aggregate_partition xs keys, aggregate_sizes xs keys⟩
+
+/-- the multi-pass sort used by aggregate (one stable pass per key, last key first) orders ANY list
+    of items lexicographically by the key tuple. -/
+theorem sort_ascending_lexicographic (xs : List Item) (keys : List String) :
+    (sort xs (keys.map (fun k => (k, false)))).Pairwise
+      (fun a b => lexLe (extract keys a) (extract keys b)) ∧
+    (sort xs (keys.map (fun k => (k, false)))).Perm xs :=
+  ⟨sort_asc_lex xs keys, sort_perm xs _⟩
+
+/-- non-vacuity: unsorted input with a None key and a repeated key. -/
+example :
+    aggregate [⟨0, [("g", .i 2)]⟩, ⟨1, [("g", .none)]⟩, ⟨2, [("g", .i 1)]⟩, ⟨3, [("g", .i 2)]⟩] ["g"]
+      = [([.i 1], [2]), ([.i 2], [0, 3]), ([.none], [1])] := by
+  rw [aggregate_eq]
+  simp only [List.map_cons, List.map_nil, sort_cons]
+  rw [show ∀ X, sort X [] = X from fun _ => rfl, sortPass_asc_eq]
+  rw [show unique [(⟨0, [("g", .i 2)]⟩ : Item), ⟨1, [("g", .none)]⟩, ⟨2, [("g", .i 1)]⟩,
+      ⟨3, [("g", .i 2)]⟩] ["g"] = [⟨0, [("g", .i 2)]⟩, ⟨1, [("g", .none)]⟩, ⟨2, [("g", .i 1)]⟩] by decide]
+  simp [List.mergeSort, List.MergeSort.Internal.splitInTwo_fst, List.MergeSort.Internal.splitInTwo_snd,
+    valLe_eq, valOf, rekey, Dict.get?, extract]
 
 end DI.C16
